@@ -649,8 +649,9 @@ func runKeyless(r *runner) {
 			runOne(&sc)
 		}
 	}
-	n := e.N(120, 1500)
+	n := e.N(60, 1200)
+	root := hx.NewRng(e.Seed*0xD6E8FEB86659FD93 ^ e.Rng.U64())
 	for i := 0; i < n; i++ {
-		runOne(kGen(e.Rng.Fork()))
+		runOne(kGen(root.Fork()))
 	}
 }
